@@ -23,13 +23,23 @@ RegFiles == {R(<<"a.c">>), R(<<"b.h">>), R(<<"notes.txt">>), R(<<"noext">>), R(<
              R(<<".hidden.c">>), R(<<"d1", "a.c">>), R(<<"d1", "ab.c">>), R(<<"d1", "d2", "a.c">>), R(<<"d1", "d2", "deep.h">>),
              R(<<"build", "gen.c">>), R(<<"a", "a.c">>), R(<<"src.c", "in.c">>), R(<<"d1", "Makefile">>),
              R(<<".c">>), R(<<"d1", ".h">>),       \* hidden files whose whole name looks like an extension: no extension at all
+             \* recognised extensions with regex metacharacters, case-sensitive ones, look-alikes, a double extension
+             R(<<"x.c++">>), R(<<"d1", "y.h++">>), R(<<"z.ccc">>), R(<<"w.hhh">>), R(<<"k.F90">>), R(<<"up.C">>),
+             R(<<"t.cu">>), R(<<"m.cpp.txt">>), R(<<"v.S">>), R(<<"n.f9">>),
              <<"B", "root2", "x.c">>, <<"B", "outside", "o.c">>}
 Dirs == {Root, R(<<"d1">>), R(<<"d1", "d2">>), R(<<"build">>), R(<<"a">>), R(<<"src.c">>), <<"B", "root2">>, <<"B", "outside">>}
 Links == [p \in {R(<<"lnk_d1">>), R(<<"la.c">>), R(<<"lout.c">>), R(<<"dangling.c">>), R(<<"lnk_out">>), R(<<"d1", "back">>)} |->
             CASE p = R(<<"lnk_d1">>) -> R(<<"d1">>) [] p = R(<<"la.c">>) -> R(<<"a.c">>)
               [] p = R(<<"lout.c">>) -> <<"B", "outside", "o.c">> [] p = R(<<"dangling.c">>) -> R(<<"nowhere.c">>)
               [] p = R(<<"lnk_out">>) -> <<"B", "outside">> [] p = R(<<"d1", "back">>) -> Root]
-SourceExt(name) == \E e \in {".c", ".h"} : Len(name) > Len(e) /\ SubSeq(name, Len(name) - Len(e) + 1, Len(name)) = e
+\* the recognised source extensions (documentation: "Supported Languages"); the extension is what follows the
+\* LAST dot of the name, and a name that only starts with a dot has none
+Exts == {".f90", ".F90", ".f", ".ftn", ".fpp", ".F", ".FOR", ".FTN", ".FPP", ".c", ".h", ".c++", ".cxx", ".cpp", ".cc",
+         ".hpp", ".hxx", ".h++", ".hh", ".inc", ".inl", ".tcc", ".icc", ".ipp", ".cu", ".cuh", ".cl", ".s", ".S", ".asm"}
+RECURSIVE LastDot(_, _)
+LastDot(name, i) == IF i = 0 THEN 0 ELSE IF SubSeq(name, i, i) = "." THEN i ELSE LastDot(name, i - 1)
+Suffix(name) == LET d == LastDot(name, Len(name)) IN IF d <= 1 THEN "" ELSE SubSeq(name, d, Len(name))
+SourceExt(name) == Suffix(name) \in Exts
 
 \* ---- pattern catalogue -------------------------------------------------------------------------
 L(s) == [i \in 1..Len(s) |-> [t |-> "c", c |-> SubSeq(s, i, i)]]
